@@ -67,8 +67,8 @@ def make_node(shape, phys, deco):
     elif av == "sub":
         top_attrs = {"IO_TYPE": "LVCMOS33"}
         sub_attrs = [{"IO_TYPE": "LVCMOS18"}, {"DRIVE": "4"}, None]
-    elif av == "unset":
-        top_attrs = {"IO_TYPE": "LVCMOS33", "PULLMODE": None}
+    elif av == "unset":           # None = "remove this attribute"; first key on plain resources, last key + subsignal level on groups
+        top_attrs = {"PULLMODE": None, "IO_TYPE": "LVCMOS33"} if shape in ("P1", "P2", "D1") else {"IO_TYPE": "LVCMOS33", "PULLMODE": None}
         sub_attrs = [{"IO_TYPE": None}, None, None]
     elif av == "call":
         top_attrs = {"IO_TYPE": {"call": "LVCMOS25"}}
